@@ -23,6 +23,8 @@ Definition ecase_mon_C07 (c : ecase) := mon_C07 (ec_cfg c) (ec_trace c).
 Definition ecase_mon_C13 (c : ecase) := mon_C13 (ec_prog c) (ec_cfg c) (ec_trace c).
 Definition ecase_mon_C13s (c : ecase) :=
   match ec_final c with Some r => mon_C13_status (ec_prog c) (ec_cfg c) (ec_trace c) r | None => true end.
+Definition ecase_mon_C14x (c : ecase) := mon_C14x (ec_prog c) (ec_cfg c) (ec_trace c).
+Definition ecase_mon_C01d (c : ecase) := mon_C01d (ec_prog c) (ec_cfg c) (ec_trace c).
 Definition ecase_mon_C14 (c : ecase) := mon_C14 (ec_prog c) (ec_cfg c) (ec_complete c) (ec_trace c).
 
 (* liveness at quiescent points: where the implementation is stuck the model must be stuck too *)
@@ -31,8 +33,13 @@ Definition ecase_mon_eager (c : ecase) : bool :=
 Definition ecase_live_inconclusive (c : ecase) : bool :=
   if ec_agree c then Nat.eqb (live_code (ec_prog c) (ec_cfg c) (ec_obs c)) 1 else false.
 
+(* agreement: the machine reproduces the observed run and its result.  Code 1 (the eager replay lost
+   track and the search ran out of its node budget) is NO verdict: it is counted
+   (ecase_agree_inconclusive), never reported as a disagreement. *)
 Definition ecase_agree (c : ecase) : bool :=
-  if ec_agree c then Nat.eqb (agree_code (ec_prog c) (ec_cfg c) (ec_obs c) (ec_final c)) 0 else true.
+  if ec_agree c then Nat.leb (agree_code (ec_prog c) (ec_cfg c) (ec_obs c) (ec_final c)) 1 else true.
+Definition ecase_agree_inconclusive (c : ecase) : bool :=
+  if ec_agree c then Nat.eqb (agree_code (ec_prog c) (ec_cfg c) (ec_obs c) (ec_final c)) 1 else false.
 
 Fixpoint number {A} (i : nat) (l : list A) : list (nat * A) :=
   match l with [] => [] | x :: r => (i, x) :: number (S i) r end.
